@@ -61,7 +61,7 @@ def canon(v):
     if t is UUID:
         return "u" + v.hex
     if t is datetime:
-        return "dt" + v.isoformat() + ("~fold" if v.fold else "")
+        return "dt" + v.isoformat() + ("~fold" if v.fold else "") + ("~" + v.tzinfo.key if getattr(v.tzinfo, "key", None) else "")
     if t is date:
         return "d" + v.isoformat()
     if isinstance(v, (set, frozenset)):
@@ -121,6 +121,8 @@ def enc(v):
     if t is UUID:
         return {"$uuid": v.hex}
     if t is datetime:
+        if getattr(v.tzinfo, "key", None):       # a zoneinfo zone: keep its identity (DST rules), not just the offset
+            return {"$dtz": v.replace(tzinfo=None).isoformat(), "zone": v.tzinfo.key, "fold": v.fold}
         return {"$dt": v.isoformat(), "fold": 1} if v.fold else {"$dt": v.isoformat()}
     if t is date:
         return {"$date": v.isoformat()}
@@ -148,6 +150,9 @@ def dec(j):
     if t is list:
         return [dec(x) for x in j]
     if t is dict:
+        if "$dtz" in j:
+            from zoneinfo import ZoneInfo
+            return datetime.fromisoformat(j["$dtz"]).replace(tzinfo=ZoneInfo(j["zone"]), fold=j.get("fold", 0))
         if "$dt" in j and len(j) == 2:
             return datetime.fromisoformat(j["$dt"]).replace(fold=j.get("fold", 0))
         (k, x), = j.items()
